@@ -96,7 +96,12 @@ def body_app(buf, max_body):
         # every later presentation of the body is the same bytes (a signature-checking hook, then the handler; a peek, then a full read)
         peek = app.request.body.read(3)
         again = app.request.body.read()
-        res['reread'] = 'same' if (again == res['out'] and peek == res['out'][:3]) else 'differs'
+        # a copy of the request (as handed to a sub-application or a background task) presents the same body
+        try:
+            via_copy = app.request.copy().body.read()
+        except Exception as e:   # noqa
+            via_copy = ('<%s>' % type(e).__name__).encode()
+        res['reread'] = 'same' if (again == res['out'] and peek == res['out'][:3] and via_copy == res['out']) else 'differs'
         # what a handler does with ITS body object (append a marker, close it) is its own business and stays with this request
         b = app.request.body
         try:
@@ -106,6 +111,13 @@ def body_app(buf, max_body):
             pass
         b.close()
         return 'ok'
+    @app.route('/f', method='POST')
+    def hf():
+        # a handler that reads the parsed views first (forms / params / json), then the raw body
+        res.clear()
+        rq = app.request
+        res['views'] = [len(rq.forms), len(rq.params), rq.json is None]
+        return h()
     _apps[key] = (app, res)
     return _apps[key]
 
@@ -115,7 +127,7 @@ CTYPES = [None, None, 'application/octet-stream', 'text/plain', 'application/jso
           'Multipart/Mixed; boundary=0']
 
 
-def run_real(mode, inp, cl, buf, max_body, schedule=None, rng=None, kind='cl', expect=b'', short_p=0.5, ctype=None, plain=None, _retry=0, fault=False):
+def run_real(mode, inp, cl, buf, max_body, schedule=None, rng=None, kind='cl', expect=b'', short_p=0.5, ctype=None, plain=None, _retry=0, fault=False, via=None):
     """plain = k: wsgi.input is an ordinary io.BytesIO positioned at offset k of (k junk bytes + inp) -- what a test client, a
     sub-request or a buffering outer application hands over; its reads cannot be logged (no mechanism conformance for it)."""
     app, res = body_app(buf, max_body)
@@ -125,7 +137,7 @@ def run_real(mode, inp, cl, buf, max_body, schedule=None, rng=None, kind='cl', e
         st = io.BytesIO(b'J' * plain + bytes(inp))
         st.seek(plain)
         st.ev = []
-    env = base_environ(REQUEST_METHOD='POST', PATH_INFO='/b')
+    env = base_environ(REQUEST_METHOD='POST', PATH_INFO='/f' if via == 'views' else '/b')
     env['wsgi.input'] = st
     if ctype is None and rng is not None:
         ctype = rng.choice(CTYPES)       # request.body is the raw body whatever the media type says
@@ -160,7 +172,7 @@ def run_real(mode, inp, cl, buf, max_body, schedule=None, rng=None, kind='cl', e
                 import time as _t
                 _t.sleep(2.0)
                 return run_real(mode, inp, cl, buf, max_body, schedule=schedule, rng=None, kind=kind, expect=expect, short_p=short_p,
-                                ctype=ctype, plain=plain, _retry=_retry + 1)
+                                ctype=ctype, plain=plain, _retry=_retry + 1, via=via)
             raise core.MachineryError('environment failure while serving a request: %s' % errs.strip().splitlines()[-1:])
     phase = {200: 'done', 400: 'e400', 413: 'e413'}.get(status, 'status%d' % status)
     if phase == 'done' and 'out' not in res:
@@ -170,7 +182,7 @@ def run_real(mode, inp, cl, buf, max_body, schedule=None, rng=None, kind='cl', e
         'mode': mode, 'inp': bytes(inp), 'cl': cl, 'buf': buf, 'maxBody': max_body,
         'ev': st.ev, 'phase': phase, 'out': out if phase == 'done' else b'',
         'spooled': bool(res.get('spooled', False)) if phase == 'done' else False,
-        'reread': res.get('reread', 'na') if phase == 'done' else 'na', 'ctype': ctype or '', 'opaque': plain is not None, 'fault': bool(fault),
+        'reread': res.get('reread', 'na') if phase == 'done' else 'na', 'ctype': ctype or '', 'opaque': plain is not None or via == 'views', 'fault': bool(fault),
         'kind': kind, 'expect': bytes(expect), 'errors': env['wsgi.errors'].getvalue()[-400:],
     }
 
